@@ -116,7 +116,9 @@ pub fn check_history(cfg: &ModelCfg, calls: &[CallRec], out: &mut Outcome) {
     let mut remaining: Vec<(u32, Vec<u8>)> = Vec::new();
     // the writer's fill counter as the strict model sees it (layer B)
     let mut fill: usize = 0;
-    let mut strict = !faulty;
+    // layer B runs on every history; under refused writes it uses the prefix rule below
+    let mut strict = true;
+    let _ = faulty;
     let mut written: BTreeMap<u32, u32> = BTreeMap::new();
     let mut accepted: Vec<u32> = Vec::new();
     let mut dead: Vec<(u32, Vec<u8>)> = Vec::new();
@@ -377,10 +379,37 @@ pub fn check_history(cfg: &ModelCfg, calls: &[CallRec], out: &mut Outcome) {
             }
         }
 
-        // ---- layer B: strict timing and greedy packing (fault-free histories) ----
+        // ---- layer B: strict timing and greedy packing ----
+        // Fault-free histories: the writes of a call must be exactly one of the shape lists greedy
+        // in-order packing allows. Histories with refused writes: retries of the same batch are
+        // collapsed, and a call cut short by a refused write must still be a *prefix* of an
+        // allowed list (a refused write never licenses an additional, unnecessary one).
         if strict {
-            let ok_shapes: Vec<usize> = shape.iter().map(|(k, _)| *k).collect();
+            // collapse retries: consecutive attempts of the same shape of which all but the last failed
+            let mut collapsed: Vec<(usize, bool)> = Vec::new();
+            // a synthesized "the channel was full/closed at drop time" marker is not a write
+            let real: Vec<(usize, bool)> = shape
+                .iter()
+                .zip(c.attempts.iter())
+                .filter(|(_, a)| !(n_before == 0 && a.payload.is_none() && !a.ok && a.err.as_ref().map(|e| e.msg == "unobservable").unwrap_or(false)))
+                .map(|(s, _)| *s)
+                .collect();
+            for (k, ok) in real.iter().copied() {
+                match collapsed.last_mut() {
+                    Some((pk, pok)) if !*pok && (*pk == k || *pk == usize::MAX || k == usize::MAX) => {
+                        if *pk == usize::MAX {
+                            *pk = k;
+                        }
+                        *pok = ok;
+                    }
+                    _ => collapsed.push((k, ok)),
+                }
+            }
+            let ok_shapes: Vec<usize> = collapsed.iter().map(|(k, _)| *k).collect();
+            let cut_short = collapsed.last().map(|(_, ok)| !*ok).unwrap_or(false);
+            let failed_in_the_middle = collapsed.iter().rev().skip(1).any(|(_, ok)| !*ok);
             let mut expect: Vec<Vec<usize>> = Vec::new(); // acceptable shape lists
+            let mut flushes_first = false;
             match &c.kind {
                 CallKind::Emit { text, .. } if bypass => {
                     let _ = text;
@@ -398,6 +427,7 @@ pub fn check_history(cfg: &ModelCfg, calls: &[CallRec], out: &mut Outcome) {
                         }
                         if nb > 0 {
                             base.push(nb);
+                            flushes_first = true;
                         }
                         f = 0;
                         nb = 0;
@@ -422,20 +452,35 @@ pub fn check_history(cfg: &ModelCfg, calls: &[CallRec], out: &mut Outcome) {
                     }
                 }
             }
-            if !expect.iter().any(|e| *e == ok_shapes) {
-                let clause = if ok_shapes.len() > expect.iter().map(|e| e.len()).max().unwrap_or(0) {
+            let same = |a: &[usize], b: &[usize]| a.len() == b.len() && a.iter().zip(b).all(|(x, y)| x == y || *x == usize::MAX);
+            let fits = if failed_in_the_middle {
+                false
+            } else if cut_short {
+                expect.iter().any(|e| e.len() >= ok_shapes.len() && same(&ok_shapes, &e[..ok_shapes.len()]))
+            } else {
+                expect.iter().any(|e| same(&ok_shapes, e))
+            };
+            if !fits {
+                let clause = if ok_shapes.len() > expect.iter().map(|e| e.len()).max().unwrap_or(0) || failed_in_the_middle {
                     "linebuf.needless-write"
                 } else {
                     "linebuf.not-greedy"
                 };
+                let shown: Vec<String> = collapsed.iter().map(|(k, ok)| format!("{}{}", if *k == usize::MAX { "?".to_string() } else { k.to_string() }, if *ok { "" } else { "(refused)" })).collect();
                 out.violate(
                     &["C19"],
                     clause,
                     format!(
-                        "call #{ci} ({what}): with {fill} of {cap} bytes buffered ({n_before} metrics) the writes of this call carried {ok_shapes:?} lines each (0 = oversize metric alone); greedy in-order packing allows only {expect:?}"
+                        "call #{ci} ({what}): with {fill} of {cap} bytes buffered ({n_before} metrics) the writes of this call carried {shown:?} lines each (0 = oversize metric alone); the socket may be written only where greedy in-order packing needs it: {expect:?}"
                     ),
                 );
                 strict = false;
+            } else if cut_short {
+                // the call was cut short by a refused write: the fill counter only moves if the
+                // flush that makes room had already succeeded
+                if flushes_first && collapsed.len() >= 2 {
+                    fill = 0;
+                }
             } else {
                 // advance the strict fill counter
                 match &c.kind {
